@@ -14,6 +14,36 @@ OPAQUE_STR_FUNCS = {"str", "repr", "format", "format_exception_only", "join", "g
 
 def call(E, n, st):
     f = n.func
+    if isinstance(f, ast.Subscript) and isinstance(f.value, ast.Name) and f.value.id in st.loc \
+            and isinstance(st.loc[f.value.id].py, dict) and "__table__" in st.loc[f.value.id].py:
+        # table[key](...) with a static dispatch table (see Engine.ev_Dict) and a statically known key
+        done = False
+        for s1, k in E.ev(f.slice, st):
+            if isinstance(k, Exc) or not isinstance(k.py, str): raise Unsupported("dispatch-table key is not static at line %s" % n.lineno)
+            tgt = st.loc[f.value.id].py["__table__"].get(k.py)
+            if tgt is None: raise Unsupported("dispatch-table has no key %r" % k.py)
+            n2 = ast.Call(func=tgt, args=n.args, keywords=n.keywords); ast.copy_location(n2, n)
+            yield from call(E, n2, s1)
+        return
+    if isinstance(f, ast.Name) and f.id == "CustomChainMap" and len(n.args) == 1 and isinstance(n.args[0], ast.Starred) and not n.keywords \
+            and "CustomChainMap" in E.reg.classes:
+        # CustomChainMap(*maps): self.maps = list(maps) or [{}]   (modelx/core/chainmap.py __init__, 1 line; modelled here)
+        for s1, ms in E.ev(n.args[0].value, st):
+            if isinstance(ms, Exc): yield s1, ms; continue
+            sq, v = E.seq_of(s1, ms)
+            fld = E.ptype(E.reg.classes["CustomChainMap"].fields["maps"])
+            if sq.elem.sort != Ref: raise Unsupported("CustomChainMap of %s" % sq.elem)
+            s_ne = s1.copy(); s_ne.pc.append(sq.len(v) > 0)
+            if E.feasible(s_ne):
+                obj = E.alloc(s_ne, RefT("CustomChainMap"), "chainmap"); lst = E.alloc(s_ne, fld, "maps"); E.set_seq(s_ne, lst, v)
+                E.set_field(s_ne, obj, "maps", lst); yield s_ne, obj
+            s_e = s1.copy(); s_e.pc.append(sq.len(v) == 0)
+            if E.feasible(s_e):
+                obj = E.alloc(s_e, RefT("CustomChainMap"), "chainmap"); lst = E.alloc(s_e, fld, "maps")
+                d = E.alloc(s_e, fld.elem, "emptymap"); E.put_set(s_e, d, z3.K(fld.elem.k.sort, False))
+                E.set_seq(s_e, lst, sq.mk(z3.IntVal(1), z3.K(I, d.v)))
+                E.set_field(s_e, obj, "maps", lst); yield s_e, obj
+        return
     if any(isinstance(a, ast.Starred) for a in n.args) or any(k.arg is None for k in n.keywords):
         yield from starred_call(E, n, st); return
     if isinstance(f, ast.Name):
@@ -372,6 +402,10 @@ def container_method(E, n, st, recv, m, args, kw):
                 s.pc.append(z3.And(0 <= p, p < sq.len(v), sq.arr(v)[p] == x,
                                    z3.ForAll([j], z3.Implies(z3.And(0 <= j, j < p), sq.arr(v)[j] != x))))
                 res, ax = E.seq_define(sq, sq.len(v) - 1, lambda i: z3.If(i < p, sq.arr(v)[i], sq.arr(v)[i + 1]), "rm"); s.pc.append(ax)
+                # the same definition read from the old list's side (a consequence, stated for the instantiation heuristics)
+                q = E.fresh("q", I)
+                s.pc.append(z3.ForAll([q], z3.Implies(z3.And(0 <= q, q < sq.len(v), q != p),
+                                                      sq.arr(v)[q] == sq.arr(res)[z3.If(q < p, q, q - 1)])))
                 E.set_seq(s, recv, res); return SV(NULL, NONE)
             yield from E.fork_exc(st, present, upd, "ValueError", n); return
         if m == "extend":
@@ -413,7 +447,8 @@ def container_method(E, n, st, recv, m, args, kw):
             E.put_dict_val(st, recv, z3.Store(val, k, res)); E.put_set(st, recv, z3.Store(dom, k, True))
             if ct.ordered: raise Unsupported("setdefault on ordered dict")
             yield st, SV(res, ct.v); return
-        if m == "pop" and len(args) == 1 and not ct.ordered:
+        if m in ("pop", "del_item") and len(args) == 1 and not ct.ordered:
+            # del_item: ImplDict.del_item = dict.__delitem__ + notify() (the namespace-staleness notification is not modelled)
             k = E.coerce(args[0], ct.k).v
             def upd(s):
                 E.put_set(s, recv, z3.Store(dom, k, False)); return SV(val[k], ct.v)
@@ -574,6 +609,7 @@ def apply_contract(E, c, recv, args, kw, st, n):
         return s2
 
     # ---- normal edge
+    n_out = 0
     if not getattr(c, "never_returns", False):
         s2 = post_state("ret")
         rty = E.ptype(c.returns) if c.returns else NONE
@@ -585,6 +621,7 @@ def apply_contract(E, c, recv, args, kw, st, n):
             E.assume(s2, ev.bool(cl.ast))
         s2.pc.extend(view.pc[len(s2.pc):]) if len(view.pc) > len(s2.pc) else None
         if E.feasible(s2):
+            n_out += 1
             yield s2, res
     # ---- exceptional edges
     for tag, clauses in c.raises.items():
@@ -595,5 +632,10 @@ def apply_contract(E, c, recv, args, kw, st, n):
         for cl in clauses:
             E.assume(s3, ev.bool(cl.ast))
         if E.feasible(s3):
+            n_out += 1
             s3.trace.append("L%d:%s!%s" % (line - E.base_line, c.name, tag))
             yield s3, Exc(None if tag == "*" else tag, eref.v, "%s at line %s" % (c.qual, line))
+    if n_out == 0 and E.feasible(st):
+        # vacuity guard: a feasible call state from which the callee's contract admits no outcome at all means the contract
+        # (or its use here) is contradictory; silently dropping the path would make everything after the call "proved"
+        raise SpecError("the contract of %s admits no outcome at its call in line %s (contradictory ensures/raises)" % (c.qual, line))
